@@ -35,6 +35,11 @@ class Monitor:
         self.seq += 1
         return self.seq
 
+    @staticmethod
+    def _step() -> int | None:
+        s = sched.active()
+        return s.step if s is not None else None
+
     def _us(self, rec: Any = None) -> int:
         """Record time of a change, or (no record) a fresh tick of the virtual clock so that every
         monitor event has its own instant, comparable with record timestamps."""
@@ -54,14 +59,14 @@ class Monitor:
         # "us" = record time (taken inside the atomic section), "vis" = an instant after the call returned:
         # the change became visible to readers somewhere in [us, vis]
         self.transitions.append({"inv": str(invocation_id), "status": rec.status.name, "by": runner_id, "owner": rec.runner_id,
-                                 "us": self._us(rec), "vis": self._us(), "seq": self._n(), "actor": getattr(sched.current_actor(), "name", None)})
+                                 "us": self._us(rec), "vis": self._us(), "seq": self._n(), "actor": getattr(sched.current_actor(), "name", None), "step": self._step()})
         return rec
 
     def _reg(self, invocations: Any, runner_id: Any = None) -> Any:
         rec = self._orig_reg(invocations, runner_id)
         for inv in invocations:
             self.transitions.append({"inv": str(inv.invocation_id), "status": rec.status.name, "by": runner_id, "owner": rec.runner_id,
-                                     "us": self._us(rec), "vis": self._us(), "seq": self._n(), "actor": getattr(sched.current_actor(), "name", None)})
+                                     "us": self._us(rec), "vis": self._us(), "seq": self._n(), "actor": getattr(sched.current_actor(), "name", None), "step": self._step()})
         return rec
 
     def _poll(self, max_num_invocations: int, runner_ctx: Any) -> Any:
